@@ -60,7 +60,18 @@ fn descriptors(ids: &Option<Vec<Vec<u8>>>, known_types: bool) -> Option<Vec<Publ
 fn gen_ids(rng: &mut Rng, c: &Content, rp: &str) -> (&'static str, Option<Vec<Vec<u8>>>) {
     let own: Vec<Vec<u8>> = c.creds.iter().filter(|p| p.rp_id == rp).map(|p| p.credential_id.to_vec()).collect();
     let foreign: Vec<Vec<u8>> = c.creds.iter().filter(|p| p.rp_id != rp).map(|p| p.credential_id.to_vec()).collect();
-    match rng.below(8) {
+    match rng.below(11) {
+        // ids that share a prefix with a held id but are not it (shorter, longer, empty)
+        8 if !own.is_empty() => {
+            let o = rng.pick(&own).clone();
+            ("proper-prefix-of-held-id", Some(vec![o[..o.len() / 2].to_vec()]))
+        }
+        9 if !own.is_empty() => {
+            let mut o = rng.pick(&own).clone();
+            o.push(rng.byte());
+            ("extension-of-held-id", Some(vec![o]))
+        }
+        10 => ("empty-id", Some(vec![vec![]])),
         0 => ("absent", None),
         1 => ("empty", Some(vec![])),
         2 if !own.is_empty() => ("hit", Some(vec![rng.pick(&own).clone()])),
@@ -79,7 +90,9 @@ fn gen_ids(rng: &mut Rng, c: &Content, rp: &str) -> (&'static str, Option<Vec<Ve
 fn part_a(rep: &mut Report, seed: u64, index: u64) {
     let mut rng = Rng::derive(seed, "c05a", index);
     let content = gen_content(&mut rng);
-    let rig = Rig::ok(Disc::Full);
+    // the store capability is irrelevant to lookups and exclusion (registrations here ask for rk = false)
+    let disc = *rng.pick(&[Disc::Full, Disc::Full, Disc::Forced, Disc::OnlyNonDiscoverable]);
+    let rig = Rig::ok(disc);
     for p in &content.creds {
         rig.store.insert_raw(p.clone());
     }
@@ -93,7 +106,7 @@ fn part_a(rep: &mut Report, seed: u64, index: u64) {
         let (class, ids) = gen_ids(&mut rng, &cur, rp);
         let is_get = rng.chance(2, 3);
         let case = json!({"index": index, "part": "a", "step": step, "op": if is_get {"get_assertion"} else {"make_credential"}, "rp": rp, "list_class": class,
-            "list": ids.as_ref().map(|l| l.iter().map(|i| hex_short(i)).collect::<Vec<_>>()), "store": content_json(&cur)});
+            "list": ids.as_ref().map(|l| l.iter().map(|i| hex_short(i)).collect::<Vec<_>>()), "store": content_json(&cur), "store_capability": format!("{disc:?}")});
         rig.log.clear();
         let known_types = !rng.chance(1, 5);
         let case = {
@@ -440,7 +453,7 @@ fn part_d(rep: &mut Report, seed: u64, index: u64) {
         rig.store.insert_raw(p.clone());
     }
     let locked: std::collections::HashSet<Vec<u8>> = content.creds.iter().filter(|_| rng.chance(1, 3)).map(|p| p.credential_id.to_vec()).collect();
-    let store = VaultStore { inner: rig.store.clone(), locked: Arc::new(std::sync::Mutex::new(locked.clone())) };
+    let store = VaultStore { inner: rig.store.clone(), locked: Arc::new(std::sync::Mutex::new(locked.clone())), rp_as_converted: None };
     let mut auth = passkey_authenticator::Authenticator::new(passkey_types::ctap2::Aaguid::new_empty(), store, VaultUv(rig.uv.clone()));
     for step in 0..rng.range(2, 6) {
         rep.eval();
@@ -525,7 +538,7 @@ pub fn run(args: &Args) -> Report {
         "C05",
         &args.tier,
         args.seed,
-        "(a) get_assertion / make_credential over a reference store holding 0-4 credentials for each of 3 RPs (identical user handles) with allow/exclude lists absent, empty, hit, hit+miss, miss, ids of another RP, all reversed; (b) the same contents in MemoryStore, Option<Passkey> and their lock wrappers queried with generated (id list, RP) pairs and compared with the contract; (c) the same rule through Client::register / authenticate with descriptors carrying transport hints (absent, empty, usb+nfc, internal+hybrid, random); (d) get_assertion over a conforming store whose items are vault entries, a third of which cannot be converted into a credential; distinct by (part, store type, list class, RP, content size); non-trivial when the id list or RP id discriminates (>= 2 RPs or >= 2 credentials involved)",
+        "(a) get_assertion / make_credential over a reference store holding 0-4 credentials for each of 3 RPs (identical user handles) with allow/exclude lists absent, empty, hit, hit+miss, miss, ids of another RP, all reversed, proper prefix / extension of a held id, the empty id, under every store capability; (b) the same contents in MemoryStore, Option<Passkey> and their lock wrappers queried with generated (id list, RP) pairs and compared with the contract; (c) the same rule through Client::register / authenticate with descriptors carrying transport hints (absent, empty, usb+nfc, internal+hybrid, random); (d) get_assertion over a conforming store whose items are vault entries, a third of which cannot be converted into a credential; distinct by (part, store type, list class, RP, content size); non-trivial when the id list or RP id discriminates (>= 2 RPs or >= 2 credentials involved)",
     );
     rep.assumptions.push("the documented contract: find_credentials returns all credentials matching the ids (when given) and the rp_id; Err(NoCredentials) is equivalent to an empty result".into());
     let only = replay_index(args);
